@@ -555,6 +555,7 @@ def run(ctx):
         elif status == 'problem':
             ctx.violation({'kind': 'problem', 'variant': variant}, detail, {'behaviour': [a for a, _ in r.trace]})
     w0.close()
+    lock_names(ctx)
     ctx.assumptions += [
         'no upstream failures; the refresh threshold does not move during the requests (the *-expired scenarios start from a cache full of expired tiles; C13 covers the rule itself)',
         '"processes" are separate TileManager/FileCache/TileLocker object graphs sharing the cache and lock directories; '
@@ -565,6 +566,49 @@ def run(ctx):
                       'TLC: all interleavings of 3 requests (2 for the 2x2 meta scenario) at the granularity of cache reads, lock '
                       'operations, upstream calls and per-tile cache writes, with and without meta tiling; distinct = distinct TLC '
                       'behaviours forced on real TileManagers plus distinct recorded schedules validated by TLC')
+
+
+def lock_names(ctx):
+    """LockName(r, m) of TileCreate.tla does not depend on the process: freshly started processes (different hash seeds)
+    must derive the same lock file for the same meta tile of the same cache, and different files for different caches
+    and meta tiles"""
+    import subprocess
+    import sys
+    from engine.report import REPO
+    base = os.path.join(ctx.sub('locknames'), 'inst')
+    os.makedirs(base, exist_ok=True)
+    outs = []
+    for seed in ('11', '2024', 'random'):
+        env = dict(os.environ, PYTHONHASHSEED=seed, PYTHONPATH=REPO)
+        p = subprocess.run([sys.executable, os.path.join(os.path.dirname(os.path.abspath(__file__)), 'c08_locknames.py'), base],
+                           env=env, capture_output=True, text=True, timeout=300)
+        line = [ln for ln in p.stdout.splitlines() if ln.startswith('LOCKNAMES ')]
+        if p.returncode != 0 or not line:
+            raise tlc.MachineryError('c08_locknames failed: %s' % (p.stderr[-800:] or p.stdout[-300:]))
+        outs.append(json.loads(line[-1][len('LOCKNAMES '):]))
+    ctx.count(('locknames', json.dumps(outs[0], sort_keys=True)))
+    ctx.sample({'kind': 'lock files derived by three freshly started processes', 'file cache': outs[0].get('file')})
+    for n in sorted(outs[0]):
+        if any(o.get(n) != outs[0][n] for o in outs[1:]):
+            ctx.violation({'kind': 'lock-name-differs-between-processes', 'cache': n},
+                          'cache %s: separately started processes derive different lock files for the same meta tiles: %s' % (
+                              n, [o.get(n) for o in outs]), {'names': outs})
+    flat = [(n, i, v) for n, vs in outs[0].items() for i, v in enumerate(vs)]
+    for a in flat:
+        for b in flat:
+            if a < b and a[2] == b[2] and (a[0] != b[0] or a[1] != b[1]) and not (a[0] != b[0] and False):
+                if a[0] == b[0]:
+                    # (0,0,1) and (1,1,1) are tiles of one 2x2 meta tile: one lock; (3,2,2) is another meta tile
+                    if {a[1], b[1]} == {0, 1}:
+                        continue
+                ctx.violation({'kind': 'lock-name-shared', 'caches': sorted({a[0], b[0]})},
+                              'lock file %s is used for %s tile #%d and %s tile #%d' % (a[2], a[0], a[1], b[0], b[1]), {'names': outs[0]})
+    for n, vs in outs[0].items():
+        if vs[0] != vs[1]:
+            ctx.violation({'kind': 'lock-name-per-tile', 'cache': n}, 'cache %s: two tiles of one meta tile use different locks %s' % (n, vs[:2]),
+                          {'names': outs[0]})
+        if not all(v.startswith('tile_locks' + os.sep) for v in vs):
+            raise tlc.MachineryError('lock files outside tile_lock_dir? %r' % (vs,))
 
 
 def replay(ctx, data):
